@@ -21,6 +21,8 @@
 (*                        (pre-)order, so "first in syntactic order" = least  *)
 (*   sp  : 1..n -> <<s, e>> | <<>>   span in totally ordered integer          *)
 (*                        positions, <<>> for a node without location         *)
+(* The operators take the set N of nodes searched from the start node f       *)
+(* (N = Scope(par, sp, f): f and below, those with a location).               *)
 (* A rectangle is r = <<s, e>>, s <= e.  The results are SETS of candidates:  *)
 (* the docstrings determine the answer only up to the ties listed in          *)
 (* LocFindMC (empty rectangles on a boundary, zero-length nodes); where the   *)
